@@ -858,7 +858,7 @@ class WhenRef:
             c.setdefault("mode", rng.choice(cls.CONDS))
             for p in ("auto", "manual", "inner"):
                 c[p] = rng.choice(cls.CONDS + (None,))
-        return cls({"c": c, "dep": "dl" in c and rng.random() < 0.25, "top": rng.random() < 0.4, "last": rng.random() < 0.4})
+        return cls({"c": c, "dep": "dl" in c and rng.random() < 0.6, "top": rng.random() < 0.4, "last": rng.random() < 0.4})
 
     @staticmethod
     def cond_text(cond, up):
@@ -1498,19 +1498,6 @@ class WhenDefaults(oracles_mod.Oracle):
                     self.emit(ref, st, s, "/m1:box/" + o, None)
         self.emit(ref, st, s, k if k.startswith("/") else "/m1:box/" + k, v)
 
-    @staticmethod
-    def without(nodes, name):
-        """the tree without the node `name` in box (the default flag of a container follows from its children)"""
-        return [[n, v, d and v is not None, [x for x in ch if not (n == "box" and x[0] == name)]] for n, v, d, ch in nodes]
-
-    API_ORDER = ("implicit-api-when-order", ": lyd_new_implicit_tree / _module / _all resolve the when conditions of the nodes "
-                 "they created with LYXP_IGNORE_WHEN, so the when of dep (reads dl) is evaluated while the default dl that is "
-                 "about to be removed (its own when is false) still exists")
-    PARSE_TOP = ("parse-when-before-toplevel-default", ": lyd_parse_data validates module by module with ONE set of "
-                 "unresolved when conditions: the when of the nested default tdep (reads the top-level default tdl) is "
-                 "resolved during the pass of an earlier module of the context, before the top-level defaults of its own "
-                 "module exist")
-
     def judge(self, line, out):
         import copy
         if oracles_mod.crashed(out):
@@ -1537,18 +1524,12 @@ class WhenDefaults(oracles_mod.Oracle):
                             "whose when is false: %s" % (bad[0], e[1]))
                 if not bad:
                     if rc(e[2]) != 0:
-                        top = ref.cfg["top"] and "tdep" in st["E"] and "tdl" not in st["E"]
-                        return (self.PARSE_TOP[0] if top else None, "parsing with validation rejects valid data (%s): %s%s"
-                                % (e[2][:150], e[1], self.PARSE_TOP[1] + " (here the explicit tdep is reported as invalid)" if top else ""))
+                        return (None, "parsing with validation rejects valid data (%s): %s" % (e[2][:150], e[1]))
                     want = ref.canon(ref.nf(copy.deepcopy(st)))
                     got = ref.canon(ref.of_dump(e[3]))
                     if got != want:
-                        top = ref.cfg["top"] and got == self.without(want, "tdep") != self.without(got, "tdep") or \
-                            (ref.cfg["top"] and self.without(got, "tdep") == self.without(want, "tdep") and
-                             not any(x[0] == "tdep" for n in got if n[0] == "box" for x in n[3]))
-                        return (self.PARSE_TOP[0] if top else None,
-                                "parsed with validation, %s gives [%s], expected (when conditions evaluated by the reference) [%s]%s"
-                                % (e[1], ref.show(got), ref.show(want), self.PARSE_TOP[1] if top else ""))
+                        return (None, "parsed with validation, %s gives [%s], expected (when conditions evaluated by the "
+                                      "reference) [%s]" % (e[1], ref.show(got), ref.show(want)))
             elif e[0] == "impl":
                 v = e[1]
                 if v["xml"] != ref.xml(st) or ref.false_units(st):
@@ -1560,10 +1541,8 @@ class WhenDefaults(oracles_mod.Oracle):
                 want = ref.canon(ref.nf(copy.deepcopy(st), nodflt=bool(v["opts"] & 0x08)))
                 got = ref.canon(ref.of_dump(v["d1"]))
                 if got != want:
-                    known = ref.cfg["dep"] and self.without(got, "dep") == self.without(want, "dep")
-                    return (self.API_ORDER[0] if known else None, "%s gives [%s], expected (implicit nodes exactly where the "
-                            "when holds, as validation creates them) [%s]%s"
-                            % (what, ref.show(got), ref.show(want), self.API_ORDER[1] if known else ""))
+                    return (None, "%s gives [%s], expected (implicit nodes exactly where the when holds, as validation "
+                                  "creates them) [%s]" % (what, ref.show(got), ref.show(want)))
                 if v["apply"] is not None and (rc(v["apply"]) != 0 or v["cmp"] != "0"):
                     return (None, "%s: the returned change set applied to the tree before does not give the tree after "
                                   "(apply %s, compare %s)" % (what, v["apply"], v["cmp"]))
@@ -1575,10 +1554,9 @@ class WhenDefaults(oracles_mod.Oracle):
                 v = e[1]
                 # (the tree was validated just before: st is its record)
                 got, want = ref.canon(ref.of_dump(v["d"])), ref.canon(ref.nf(copy.deepcopy(st)))
-                known = ref.cfg["dep"] and rc(v["rc"]) == 0 and self.without(got, "dep") == self.without(want, "dep")
                 if rc(v["rc"]) != 0 or got != want:
-                    return (self.API_ORDER[0] if known else None, "lyd_new_implicit_all on a validated (complete) tree "
-                            "changes it (%s): [%s]%s" % (v["rc"], ref.show(got), self.API_ORDER[1] if known else ""))
+                    return (None, "lyd_new_implicit_all on a validated (complete) tree changes it (%s): [%s]"
+                            % (v["rc"], ref.show(got)))
                 if v["diff"] != "empty":
                     return (None, "lyd_new_implicit_all on a validated (complete) tree reports a non-empty change set: %s"
                             % v["diff"][:200])
@@ -1629,12 +1607,15 @@ class WhenDefaultsModule(WhenDefaults):
 
 class WhenResModel(Comp):
     """lyd_validate_unres_when (when resolution: postponed while a dependency is queued, auto-delete vs error, repeated
-    until the set is empty) vs WhenRes.wrun on generated dependency graphs: leaves n0..nk of one container, leaf i with
-    an optional default and an optional when over the presence / value of leaves with smaller numbers (any and / or /
-    not combination, so chains and diamonds of conditional nodes), histories of lyd_new_path / lyd_free_tree edits
-    and validations. After every validation the present leaves, their values and default flags (or the rejection) must
-    be what the model computes from ITS record of the tree before (ocaml/run_dflt.ml keeps the world, the default
-    flags and which nodes were true before)."""
+    until the set is empty) vs WhenRes.wrun on generated dependency graphs: leaves n0..nk, each a top-level node of the
+    module or a child of container box, leaf i with an optional default and an optional when over the presence / value
+    of leaves with smaller numbers on either level (any and / or / not combination, so chains and diamonds of
+    conditional nodes, nested nodes that read top-level defaults and the reverse), histories of lyd_new_path /
+    lyd_free_tree edits and two entries into the resolution: lyd_validate_all (every present conditional node is
+    queued; one run) and lyd_new_implicit_all (only the nodes it created are queued, all as was-true; phase 1 the
+    top-level ones, phase 2 the nested ones - C07_when_resolution_phases). After every call the present leaves, their
+    values and default flags (or the rejection) must be what the model computes from ITS record of the tree before
+    (ocaml/run_dflt.ml keeps the world, the default flags and which nodes were true before)."""
     name = "whenres"
     driver = "lyx"
     slice = "dflt"
@@ -1658,46 +1639,60 @@ class WhenResModel(Comp):
         return ",".join([e[0]] + [cls.prefix(x) for x in e[1:]])
 
     @classmethod
-    def xpath(cls, e):
+    def xpath(cls, e, me_top, tops):
+        """the condition as XPath text for a leaf on level me_top (context node: the leaf itself)"""
+        def ref(d):
+            if me_top:
+                return "../n%d" % d if d in tops else "../box/n%d" % d
+            return "../../n%d" % d if d in tops else "../n%d" % d
         if e[0] == "H":
-            return "../n%d" % e[1]
+            return ref(e[1])
         if e[0] == "E":
-            return "../n%d = %d" % (e[1], e[2])
+            return "%s = %d" % (ref(e[1]), e[2])
         if e[0] == "N":
-            return "not(%s)" % cls.xpath(e[1])
-        return "(%s) %s (%s)" % (cls.xpath(e[1]), "and" if e[0] == "A" else "or", cls.xpath(e[2]))
+            return "not(%s)" % cls.xpath(e[1], me_top, tops)
+        return "(%s) %s (%s)" % (cls.xpath(e[1], me_top, tops), "and" if e[0] == "A" else "or", cls.xpath(e[2], me_top, tops))
 
     def gen(self, rng, tier, scale=1.0):
         L = []
-        for i in range(self.n(tier, 500, 10000, scale)):
+        for i in range(self.n(tier, 600, 12000, scale)):
             k = rng.randrange(3, 9)
+            tops = {j for j in range(k) if rng.random() < 0.4} if i % 2 else set()
             whens = {j: self.rand_expr(rng, j) for j in range(1, k) if rng.random() < 0.75}
             dflts = {j: rng.choice([1, 2]) for j in range(k) if rng.random() < 0.5}
-            leaves = " ".join('leaf n%d {%s type uint8;%s }' % (
-                j, ' when "%s";' % self.xpath(whens[j]) if j in whens else "",
-                ' default "%d";' % dflts[j] if j in dflts else "") for j in range(k))
+            leaf = lambda j: 'leaf n%d {%s type uint8;%s }' % (
+                j, ' when "%s";' % self.xpath(whens[j], j in tops, tops) if j in whens else "",
+                ' default "%d";' % dflts[j] if j in dflts else "")
+            path = lambda j: "/m1:n%d" % j if j in tops else "/m1:box/n%d" % j
             s = Script()
             s.add("#p", ";".join("%d:%s" % (j, self.prefix(e)) for j, e in sorted(whens.items())) or ";")
             s.add("#d", ";".join("%d=%d" % jv for jv in sorted(dflts.items())) or ";")
+            s.add("#lv", ";".join(str(j) for j in sorted(tops)) or ";")
             s.ctx(opts=0x04)
-            s.mod('module m1 { yang-version 1.1; namespace "urn:m1"; prefix m1; container box { %s } }' % leaves)
+            s.mod('module m1 { yang-version 1.1; namespace "urn:m1"; prefix m1; %s container box { %s } }'
+                  % (" ".join(leaf(j) for j in range(k) if j in tops), " ".join(leaf(j) for j in range(k) if j not in tops)))
             for rnd in range(rng.choice([2, 3, 4, 5])):
                 for _ in range(rng.choice([0, 1, 2, 3]) if rnd else rng.choice([0, 1, 2, 4])):
                     j = rng.randrange(k)
                     if rng.random() < 0.7:
                         v = rng.choice([5, 6])
                         s.add("#new", j, v)
-                        s.add("newpath", "t0", "c0", NEWPATH_UPDATE, hexs("/m1:box/n%d" % j), hexs(str(v)))
+                        s.add("newpath", "t0", "c0", NEWPATH_UPDATE, hexs(path(j)), hexs(str(v)))
                     else:
                         s.add("#free", j)
-                        s.add("freepath", "t0", hexs("/m1:box/n%d" % j))
+                        s.add("freepath", "t0", hexs(path(j)))
+                if i % 2 and rng.random() < 0.5:
+                    s.add("implicit", "t0", "c0", IMPLICIT_NO_STATE)
+                    s.dump(0, 0)
+                    if rng.random() < 0.5:
+                        continue
                 s.add("val", "t0", "c0", 0)
                 s.dump(0, 0)
             L.append("whenres\t" + "\t".join(s.cmds))
         return L
 
     def norm(self, line, out):
-        if out.startswith("V") or out == "" or out.startswith("E "):
+        if out.startswith("V") or out.startswith("I") or out == "" or out.startswith("E "):
             return out                               # the model's answer
         if oracles_mod.crashed(out):
             return out
@@ -1706,15 +1701,27 @@ class WhenResModel(Comp):
         cmds = line.split("\t")[1:]
         parts = []
         for k, c in enumerate(cmds):
-            if not c.startswith("val t0") or k + 1 >= len(r):
+            tag = "V" if c.startswith("val t0") else "I" if c.startswith("implicit t0") else None
+            if not tag or k + 1 >= len(r):
                 continue
             if rc(r[k]) != 0:
-                parts.append("VE")
+                parts.append(tag + "E")
                 break
             ent = []
             for sg in DfltModel.only_m1(r[k + 1]).split(";"):
                 p = sg.split(":")
-                if len(p) > 4 and p[0] == "1":
-                    ent.append("%d=%s%s;" % (int(p[2][1:]), unhex(p[3][1:]).decode(), "d" if "d" in p[4] else ""))
-            parts.append("V0 " + "".join(ent))
+                if len(p) > 4 and p[3].startswith("="):
+                    ent.append((int(p[2][1:]), "%d=%s%s;" % (int(p[2][1:]), unhex(p[3][1:]).decode(), "d" if "d" in p[4] else "")))
+            parts.append(tag + "0 " + "".join(t for _, t in sorted(ent)))
         return " | ".join(parts)
+
+    def witness(self, line, model_out, impl_out):
+        m, o = self.norm(line, model_out).split(" | "), self.norm(line, impl_out).split(" | ")
+        for a, b in zip(m, o):
+            if a != b:
+                if a.startswith("I"):
+                    return (None, "lyd_new_implicit_all gives %s, the resolution of the when conditions of the new default "
+                                  "nodes (WhenRes.wrun in the phases nested / top-level / nested) gives %s" % (b, a))
+                return (None, "lyd_validate_all gives %s, the resolution of the queued when conditions (WhenRes.wrun) gives %s"
+                        % (b, a))
+        return None
